@@ -243,11 +243,13 @@ C09AltStream(call, x) == Tri(call.res.ok, x.after = x.before /\ x.at = x.want)
 
 \* C17  results do not depend on call history, schedule or entry point.
 \* identical calls (same construct, operation, input, keywords) at two points of a history / in a schedule and alone
-C17Same(a, b) == Tri(TRUE, a.res.ok = b.res.ok /\ a.res.err = b.res.err /\ (a.res.ok => ValEq(a.res.v, b.res.v) /\ a.res.p - a.start = b.res.p - b.start))
+\* (a call cut by the recorder's event budget has no outcome to compare)
+Cut(a, b) == a.res.err = "Watchdog" \/ b.res.err = "Watchdog"
+C17Same(a, b) == Tri(~Cut(a, b), a.res.ok = b.res.ok /\ a.res.err = b.res.err /\ (a.res.ok => ValEq(a.res.v, b.res.v) /\ a.res.p - a.start = b.res.p - b.start))
 \* entry points: values (parse family) or bytes (build family) agree; positions are entry-point specific
-C17Entry(a, b) == Tri(TRUE, a.res.ok = b.res.ok /\ (a.res.ok => ValEq(a.res.v, b.res.v)) /\ (~a.res.ok => a.res.err = b.res.err))
+C17Entry(a, b) == Tri(~Cut(a, b), a.res.ok = b.res.ok /\ (a.res.ok => ValEq(a.res.v, b.res.v)) /\ (~a.res.ok => a.res.err = b.res.err))
 \* parse_stream at another starting offset: equal values, unless the construct observes absolute positions
-C17Offset(n, a, b) == Tri(~AnyNode(n, {"Tell", "RawCopy", "Pointer", "Seek", "OffsettedEnd"}),
+C17Offset(n, a, b) == Tri(~Cut(a, b) /\ ~AnyNode(n, {"Tell", "RawCopy", "Pointer", "Seek", "OffsettedEnd"}),
                           a.res.ok = b.res.ok /\ a.res.err = b.res.err /\ (a.res.ok => ValEq(a.res.v, b.res.v) /\ a.res.p - a.start = b.res.p - b.start))
 \* construct objects are not mutated by use: structural digests of the object graphs of the pool before and after a call
 C17Frozen(x) == Tri(TRUE, x.before = x.after)
